@@ -815,6 +815,11 @@ func runConcSample(bin, prop string, seed uint64, thorough bool) *RunReport {
 		sc.Steps = append(sc.Steps, st)
 		r.ExecStep(st)
 	}
+	if (prop == "C01" || prop == "C02" || prop == "C13") && rng.Chance(1, 4) {
+		st := Step{Disk: &DiskOp{Kind: "inflate", N: 12 + rng.Intn(30), Pos: rng.Intn(1 << 16)}}
+		sc.Steps = append(sc.Steps, st)
+		r.ExecStep(st)
+	}
 	r.VL.V = nil
 	r.seenSig = map[string]bool{}
 	cmds := genBatch(prop, g, r.M, rng)
